@@ -31,8 +31,8 @@ fn options_push_back(options: &mut BTreeMap<u16, VecDeque<Vec<u8>>>, n: u16, v: 
     common.header_contracts(u, PROPS)
     u.rule('R3:be16_macro', r'u16::from_be\(\s*u8_to_unsigned_be!\(\s*buf,\s*idx,\s*idx \+ 1,\s*u16\s*\),?\s*\)', 'be16_at(buf, idx)', 2)
     u.rule('R4:entry-or_default-push_back',
-           r'options\s*\.entry\(options_number\)\s*\.or_default\(\)\s*\.push_back\(options_value\);',
-           'options_push_back(&mut options, options_number, options_value);', 1)
+           r'options\s*\.entry\(([^()]*)\)\s*\.or_default\(\)\s*\.push_back\(([^()]*)\);',
+           r'options_push_back(&mut options, \1, \2);', 1)
     u.rule('R12:unreachable', r'_ => unreachable!\(\),',
            '_ => { proof { let x = self.ver_type_tkl; assert((0x30 & x) >> 4 <= 3) by (bit_vector); } unreachable!() }', 1)
     u.contract(('impl Header', 'set_token_length'), '        requires tkl < 16', props=['C01'])
@@ -72,15 +72,15 @@ fn options_push_back(options: &mut BTreeMap<u16, VecDeque<Vec<u8>>>, n: u16, v: 
                     decreases buf.len() - idx,''')
     u.before(FROM_BYTES, r'let byte = buf\[idx\];',
              '                    proof { lemma_nibbles(buf@[idx as int]); }')
-    u.after(FROM_BYTES, r'options_push_back\(&mut options, options_number, options_value\);', '''                    proof {
-                        let item = (options_number, buf@.subrange(idx as int, end as int));
+    u.after(FROM_BYTES, r'options_push_back\(&mut options, ([^,]*), ([^;]*)\);', '''                    proof {
+                        let item = (\\g<1>, buf@.subrange(idx as int, end as int));
                         lemma_group_push(acc, item.0, item.1);
                         let nxt = parse_opts(buf@, end as int, options_number as int);
                         if nxt is Some {
                             assert(acc + (seq![item] + nxt.unwrap().0) == acc.push(item) + nxt.unwrap().0);
                         }
                         acc = acc.push(item);
-                    }''')
+                    }''', expand=True)
     u.dropped = ['doc comments kept; #[cfg(test)] modules not extracted; only the listed items are extracted']
     u.finish(common.HEAD)
     return u
